@@ -1,20 +1,26 @@
 #!/bin/bash
-# usage: check_benign.sh <mutdir-name>  e.g. C14-b : applies each OUT/refactorN.diff to /repo, confirms the suite, runs every quick check (expects silence), reverts
+# usage: check_benign.sh [name ...]   e.g. C14-b
+# Applies each behaviour-preserving refactoring benign/<name>/refactorN.diff to /repo (temporarily), runs every
+# quick check (expects silence: any VIOLATION is a false alarm of the machinery), reverts. Evidence goes to a scratch dir.
 set -u
-name=$1
-for d in /tmp/mut/$name/OUT/refactor*.diff; do
+export GOFLAGS=-mod=mod GOPROXY=off GOSUMDB=off GOTOOLCHAIN=local GOWORK=off
+names=${*:-$(ls /verif/benign)}
+scratch=$(mktemp -d /tmp/benign-verif.XXXXXX)
+cp /verif/known_findings.jsonl $scratch/; cp -r /verif/variants $scratch/ 2>/dev/null
+rc=0
+for name in $names; do
+for d in /verif/benign/$name/refactor*.diff; do
   [ -f "$d" ] || continue
   echo "=== $d"
-  git -C /repo apply "$d" || { echo "does not apply"; continue; }
-  (cd /repo && GOFLAGS=-mod=mod GOPROXY=off GOSUMDB=off go build ./... ) || echo "BUILD FAILS"
-  suite=skipped
+  git -C /repo apply "$d" || { echo "does not apply"; rc=1; continue; }
+  (cd /repo && go build ./... ) || echo "BUILD FAILS"
   cd /verif
-  for p in C01 C02 C03 C04 C05 C06 C07 C08 C09 C10 C11 C12 C13 C14 C15 C16 C17 C18 C19 C20; do
-    out=$(./bin/xcheck -prop $p -verif /tmp/mut/scratch-verif 2>&1)
-    if echo "$out" | grep -q "^VIOLATION\|^CHECKER"; then
-       echo "$p ALARM: $(echo "$out" | grep -E '^(VIOLATED|UNDECIDED|CHECKER)' | head -4 | cut -c1-260)"
-    fi
-  done
+  printf '%s\n' C01 C02 C03 C04 C05 C06 C07 C08 C09 C10 C11 C12 C13 C14 C15 C16 C17 C18 C19 C20 | xargs -P 10 -I{} sh -c \
+    'out=$(./bin/xcheck -prop {} -verif '$scratch' 2>&1); if echo "$out" | grep -q "^VIOLATION\|^CHECKER"; then echo "{} ALARM: $(echo "$out" | grep -E "^(VIOLATED|UNDECIDED|CHECKER)" | head -4 | cut -c1-300)"; fi' | sort | tee -a $scratch/alarms
   git -C /repo checkout -- . ; git -C /repo clean -fdq -- '*.go' 2>/dev/null
 done
+done
+[ -s $scratch/alarms ] && rc=1
+rm -rf $scratch
 git -C /repo status --short | head
+exit $rc
